@@ -88,8 +88,35 @@ let show_hist steps =
   let parts = go [] steps in
   if parts = [] then "_" else String.concat " " parts
 
+(* kind `awr`: args = ops mode seed workers pool level; only the script reaches the model: the
+   block sequence does not depend on the schedule (c16_async_writer_pipeline_in_order) and the
+   sync writer model cuts the same blocks (c16_async_writer_equals_sync_blocks), so the same
+   text is printed for both sides. *)
+let parse_aops s =
+  if s = "_" then [] else
+  List.map (fun p ->
+    if p = "f" then AFlush else
+    let t = String.sub p 1 (String.length p - 1) in
+    match split_on ':' t with
+    | [l; a; m] ->
+        let d = pattern (int_of_string l) (int_of_string a) (int_of_string m) in
+        (match p.[0] with 'w' -> AWriteAll d | 'p' -> AWrite d | _ -> failwith "aop")
+    | _ -> failwith "aop") (split_on ',' s)
+
+let show_writer (blocks, results) =
+  let b = List.map canon_bytes blocks @ ["eof"] in
+  let r = List.filter_map (function
+    | Ok0 (Some amt) -> Some (dec_of_n amt)
+    | Ok0 None -> None
+    | Err1 _ -> Some "Err"
+    | Panic0 -> Some "Panic") results in
+  String.concat "," b ^ "|" ^ (if r = [] then "_" else String.concat "," r)
+
 let handle kind a =
   match kind with
+  | "awr" ->
+      let t = show_writer (async_writer_case (parse_aops a.(0))) in
+      Some ("sync=" ^ t ^ " async=" ^ t)
   | "ardr" ->
       let f = parse_frames a.(1) and idx = parse_index a.(2) and ops = parse_ops a.(3) in
       let w = nat_of_int (int_of_string a.(6)) and p = nat_of_int (int_of_string a.(7)) in
